@@ -51,6 +51,8 @@ enum Runner {
     Build,
     /// the real llw binary under RLIMIT_FSIZE (real "disk full"), SIGXFSZ ignored
     LlwFsizeLimit,
+    /// the real llw binary with a standard error stream whose writes fail (`2>/dev/full`)
+    LlwStderrFull,
 }
 #[derive(Serialize, Deserialize, Clone, Copy, Debug, PartialEq, Eq, Hash, PartialOrd, Ord)]
 enum FaultSpec {
@@ -488,6 +490,12 @@ fn exec_process(case: &Case, scratch: &Path, llw: &Path, helper: &Path) -> Obser
             c.arg("-c").arg(format!("trap '' XFSZ; ulimit -f 8; exec '{}' {}", llw.display(), quoted.join(" ")));
             c
         }
+        Runner::LlwStderrFull => {
+            let mut c = Command::new("/bin/sh");
+            let quoted: Vec<String> = args.iter().map(|a| format!("'{}'", a.replace('\'', "'\\''"))).collect();
+            c.arg("-c").arg(format!("exec '{}' {} 2>/dev/full", llw.display(), quoted.join(" ")));
+            c
+        }
         Runner::Build => {
             let mut c = Command::new(helper);
             c.arg(&l.input_arg).env("OUT_DIR", &l.output_arg);
@@ -524,8 +532,12 @@ fn exec_process(case: &Case, scratch: &Path, llw: &Path, helper: &Path) -> Obser
         ops: vec![],
         attempted: vec![],
         changed: diff_snap(&before, &after),
-        io_failure: io_failure || matches!(case.runner, Runner::LlwFsizeLimit),
-        faults_fired: if matches!(case.runner, Runner::LlwFsizeLimit) { vec!["RLIMIT_FSIZE".into()] } else { vec![] },
+        io_failure: io_failure || matches!(case.runner, Runner::LlwFsizeLimit | Runner::LlwStderrFull),
+        faults_fired: match case.runner {
+            Runner::LlwFsizeLimit => vec!["RLIMIT_FSIZE".into()],
+            Runner::LlwStderrFull => vec!["stderr_writes_fail".into()],
+            _ => vec![],
+        },
     };
     let _ = std::fs::remove_dir_all(&l.case_dir);
     let _ = l.input_abs;
@@ -696,6 +708,7 @@ fn signature(case: &Case, viol: &Violation, obs: &Observation) -> String {
             Runner::Llw => "llw",
             Runner::Build => "build",
             Runner::LlwFsizeLimit => "llw_fsize",
+            Runner::LlwStderrFull => "llw_stderr_full",
         },
         fault_desc(case, obs)
     )
@@ -947,6 +960,29 @@ fn enumerate_real(tier: Tier, seed: u64, pool: &Pool, start_idx: u64) -> Vec<Cas
                         cases.push(c);
                         idx += 1;
                     }
+                }
+            }
+        }
+    }
+    // a standard error stream that cannot be written (diagnostics cannot be shown): the exit status may be failure
+    // for any reason, but never success while the grammar has an error; file clauses unchanged
+    for (check, format, graph) in flag_combos() {
+        if format {
+            continue;
+        }
+        for class in ["clean", "warnings_only", "syntax_error", "semantic_error"] {
+            for k in 0..tier.pick(2usize, 6usize) {
+                let hsh = vcore::h(&[seed, 0x57DE, idx, k as u64]);
+                if let Some(c) = make_case(
+                    idx,
+                    Runner::LlwStderrFull,
+                    pool,
+                    class,
+                    (hsh >> 12) as usize,
+                    (check, format, graph, 0, (hsh >> 3) & 1 == 1, OutKind::Existing, false, false, false, false, Style::SubDir),
+                ) {
+                    cases.push(c);
+                    idx += 1;
                 }
             }
         }
